@@ -287,6 +287,9 @@ func Drive(c *Check, tier string, seed int64, nworkers int, only string) int {
 					mp.Notes = append(mp.Notes, n)
 				}
 			}
+			for k := range pr.Violations {
+				pr.Violations[k].Shard = fmt.Sprintf("shard=%d/%d seed=%d budget=%d", i, nworkers, seed, budgetS)
+			}
 			mp.Violations = append(mp.Violations, pr.Violations...)
 			for _, s := range pr.Samples {
 				if len(mp.Samples) < maxSamples {
@@ -349,6 +352,15 @@ func Drive(c *Check, tier string, seed int64, nworkers int, only string) int {
 			continue // enough replay artefacts; total count is still reported
 		}
 		if v.Kind != "fatal" && v.Kind != "hang" && v.Kind != "race-detector" && v.Kind != "fails-after-history" && !confirmViolation(self, c, tier, v) {
+			// The case alone is fine in a fresh process. If re-running the worker shard that reported it reports the
+			// same violation again, the failure is a deterministic function of the calls the shard made before it:
+			// a history-dependent violation of the implementation (state carried from one call to the next).
+			if v.Shard != "" && reproducesInShard(self, c, tier, v) {
+				v.History = true
+				v.Detail = "history-dependent: the case passes as the only call of a fresh process and fails again, identically, every time worker " + v.Shard + " is re-run (the calls that shard makes before it are the history) | " + v.Detail
+				newViol = append(newViol, v)
+				continue
+			}
 			unconfirmed++
 			fmt.Fprintf(os.Stderr, "ENGINE-ERROR: violation did not reproduce identically in fresh processes: %s %s %s\n", v.Phase, v.InputStr, v.Detail)
 			continue
@@ -629,6 +641,20 @@ func ReplayFile(path, tier string, asJSON bool) int {
 		fmt.Printf("replay: the worker shard did not die at the recorded case again (property=%s phase=%s)\n", v.Property, v.Phase)
 		return 0
 	}
+	if v.History {
+		self, _ := os.Executable()
+		orig := v
+		orig.History = false
+		if i := strings.Index(orig.Detail, " | "); i >= 0 {
+			orig.Detail = orig.Detail[i+3:]
+		}
+		if reproducesInShard(self, c, tier, orig) {
+			fmt.Printf("VIOLATION property=%s replay=%s\n  phase=%s kind=%s input=%s aux=%q\n  %s\n", v.Property, path, v.Phase, v.Kind, quoteShort(string(in)), v.Aux, v.Detail)
+			return 1
+		}
+		fmt.Printf("replay: re-running worker %s did not report the recorded violation again (property=%s phase=%s)\n", v.Shard, v.Property, v.Phase)
+		return 0
+	}
 	got, eerr := ReplayCase(c, tier, v.Phase, string(in), v.Aux)
 	if eerr != "" {
 		fmt.Fprintln(os.Stderr, "ENGINE-ERROR:", eerr)
@@ -656,6 +682,54 @@ func shmDir() string {
 		return "/dev/shm"
 	}
 	return ""
+}
+
+// reproducesInShard re-runs the worker shard that reported v (that phase only) twice and reports whether the same
+// violation (same key, same detail) comes out both times.
+func reproducesInShard(self string, c *Check, tier string, v Violation) bool {
+	var shard, n, budgetS int
+	var seed int64
+	if _, err := fmt.Sscanf(v.Shard, "shard=%d/%d seed=%d budget=%d", &shard, &n, &seed, &budgetS); err != nil {
+		return false
+	}
+	// first the phase alone (twice); if the history lies in an earlier phase of the shard, the whole shard (twice)
+	return reproducesInShardRun(self, c, tier, v, shard, n, budgetS, seed, true) || reproducesInShardRun(self, c, tier, v, shard, n, budgetS, seed, false)
+}
+
+func reproducesInShardRun(self string, c *Check, tier string, v Violation, shard, n, budgetS int, seed int64, phaseOnly bool) bool {
+	for round := 0; round < 2; round++ {
+		ctx, cancel := context.WithTimeout(context.Background(), time.Duration(budgetS)*2*time.Second+120*time.Second)
+		args := []string{"-worker", "-prop", c.ID, "-tier", tier, "-shard", strconv.Itoa(shard), "-nshards", strconv.Itoa(n),
+			"-seed", strconv.FormatInt(seed, 10), "-budget", strconv.Itoa(budgetS)}
+		if phaseOnly {
+			args = append(args, "-phase", v.Phase)
+		}
+		cmd := exec.CommandContext(ctx, self, args...)
+		cmd.Env = append(os.Environ(), "GOMAXPROCS=1")
+		var so bytes.Buffer
+		cmd.Stdout = &so
+		err := cmd.Run()
+		cancel()
+		if err != nil {
+			return false
+		}
+		var res WorkerResult
+		if json.Unmarshal(so.Bytes(), &res) != nil {
+			return false
+		}
+		found := false
+		for _, pr := range res.Phases {
+			for _, g := range pr.Violations {
+				if g.Key() == v.Key() && g.Detail == v.Detail {
+					found = true
+				}
+			}
+		}
+		if !found {
+			return false
+		}
+	}
+	return true
 }
 
 // rerunShard runs one worker shard of one phase again and reports whether it died, and where.
